@@ -9,12 +9,20 @@
 //!     (thorough); draw-order histories with a reused dirty caller buffer;
 //!  4. schedules: shuttle DFS over the three lazy-metrics hook sites of 2–3 threads drawing through one
 //!     shared Auto instance ⇒ every thread's result equals the fresh sequential reference.
-//! The oracle is differential throughout (no hand-written expected outlines).
+//!  5. (audit, AUDIT.md) a hand-encoded shapes font: every contour of 1..6 points over {on, off}, pairs of
+//!     contours, and glyphs whose scratch size sits exactly on the library allocator's bucket bounds.
+//! The oracle is differential throughout (no hand-written expected outlines); the audit added two
+//! counting oracles (one move per contour stored in the raw glyf data; the two path styles agree for
+//! contours that start on-curve), pedantic draws, size 7.5, three more targets, zero vectors of other
+//! lengths, the instance getters, and synthetic-font families for the original twilight position,
+//! glyph-time twilight writes, value-stack underflow and the retained graphics state.
 
+mod shapes;
 mod synth;
 
 use font_types::{F2Dot14, GlyphId};
 use rayon::prelude::*;
+use read_fonts::tables::glyf::Glyph;
 use read_fonts::{FontRef, TableProvider};
 use serde_json::{json, Value};
 use skrifa::instance::{LocationRef, Size};
@@ -80,6 +88,33 @@ struct Loaded {
     sel: Vec<GlyphId>,
     /// not one of the DESIGN fonts F: rest of the in-repo corpus, takes part in parts 1, 2 and 3b only
     extra: bool,
+    /// synthesised font: never subject to the per-font glyph cap of the corpus fonts
+    uncapped: bool,
+    /// glyf fonts: number of contours of every glyph counted from the raw glyf data (composites:
+    /// sum over the component tree), `None` where the data cannot be walked
+    raw_contours: Vec<Option<usize>>,
+}
+
+/// Contours of a glyph from the stored glyf data alone (numberOfContours of simple glyphs, summed
+/// over the component tree of composites).
+fn count_raw_contours(font: &FontRef, gid: u32, depth: u32) -> Option<usize> {
+    let glyf = font.glyf().ok()?;
+    let loca = font.loca(None).ok()?;
+    match loca.get_glyf(GlyphId::new(gid), &glyf) {
+        Ok(None) => Some(0),
+        Ok(Some(Glyph::Simple(s))) => Some(s.number_of_contours().max(0) as usize),
+        Ok(Some(Glyph::Composite(c))) => {
+            if depth > 16 {
+                return None;
+            }
+            let mut n = 0usize;
+            for comp in c.components() {
+                n += count_raw_contours(font, comp.glyph.to_u32(), depth + 1)?;
+            }
+            Some(n)
+        }
+        Err(_) => None,
+    }
 }
 
 fn load_fonts() -> Result<Vec<Loaded>, String> {
@@ -91,6 +126,8 @@ fn load_fonts() -> Result<Vec<Loaded>, String> {
     }
     datas.push(("synthetic_prep_state.ttf".into(), synth::build()));
     let n_f = datas.len();
+    // the contour-shape / scratch-size font: treated like a corpus font (parts 1, 2, 3b, 5), uncapped
+    datas.push((shapes::NAME.into(), shapes::build().0));
     // the rest of the corpus (sorted by path), after F so that F's indices are stable
     for (path, b) in corpus_fonts() {
         let name = path.rsplit('/').next().unwrap().to_string();
@@ -112,20 +149,29 @@ fn load_fonts() -> Result<Vec<Loaded>, String> {
         let axes = font.axes().len();
         let is_glyf = outlines.format() == Some(OutlineGlyphFormat::Glyf);
         // small fonts (incl. the synthetic one): every glyph is observed
-        let k = if n_glyphs <= 24 { n_glyphs } else { 12 };
+        let k = if n_glyphs <= 40 { n_glyphs } else { 12 };
         let mut sel: Vec<GlyphId> = (0..k).map(|i| GlyphId::new(((i as u64 * n_glyphs as u64) / k.max(1) as u64) as u32)).collect();
         sel.dedup();
-        out.push(Loaded { name, font, outlines, n_glyphs, axes, is_glyf, sel, extra: idx >= n_f });
+        let uncapped = name == shapes::NAME;
+        let raw_contours = if is_glyf { (0..n_glyphs.min(4096)).map(|g| count_raw_contours(&font, g, 0)).collect() } else { vec![] };
+        out.push(Loaded { name, font, outlines, n_glyphs, axes, is_glyf, sel, extra: idx >= n_f, uncapped, raw_contours });
     }
     Ok(out)
 }
 
-/// options index: 0..=5 hinted, 6 unhinted
-const N_HINTED_OPTS: u8 = 6;
+/// options index: 0..=5 and 8..=10 hinted, 6 and 7 unhinted
 const OPT_UNHINTED: u8 = 6;
 /// unhinted, `PathStyle::HarfBuzz` (different scaler: HarfBuzzScaler, f32 points)
 const OPT_UNHINTED_HB: u8 = 7;
-const N_OPTS: u8 = 8;
+/// every hinted option, in enumeration order (8..=10 were added by the coverage audit: the two
+/// `Target::Smooth` flags and the light mode, none of which the first six options vary)
+const HINTED_OPTS: [u8; 9] = [0, 1, 2, 3, 4, 5, 8, 9, 10];
+/// hinted options of the original reconfigure alphabet (all sizes)
+const K_BASE_OPTS: [u8; 6] = [0, 1, 2, 3, 4, 5];
+
+fn is_auto(opt: u8) -> bool {
+    opt == 3 || opt == 4 || opt == 10
+}
 
 fn is_unhinted(opt: u8) -> bool {
     opt == OPT_UNHINTED || opt == OPT_UNHINTED_HB
@@ -139,7 +185,7 @@ fn style_of(opt: u8) -> PathStyle {
     }
 }
 
-const OPT_NAMES: [&str; 8] = [
+const OPT_NAMES: [&str; 11] = [
     "Interpreter/Mono",
     "Interpreter/Smooth-Normal",
     "Interpreter/Smooth-Lcd",
@@ -148,8 +194,12 @@ const OPT_NAMES: [&str; 8] = [
     "AutoFallback/default",
     "Unhinted",
     "Unhinted-HarfBuzz",
+    "Interpreter/Smooth-Normal-asymmetric",
+    "Interpreter/Smooth-Normal-linear-metrics",
+    "Auto/Smooth-Light",
 ];
-const SIZE_NAMES: [&str; 3] = ["8", "16", "unscaled"];
+const SIZE_NAMES: [&str; 4] = ["8", "16", "unscaled", "7.5"];
+const N_SIZES: u8 = 4;
 const LOC_NAMES: [&str; 3] = ["none", "zero-vector", "non-default"];
 
 #[derive(Clone, Copy, PartialEq, Eq, Hash, Debug, PartialOrd, Ord)]
@@ -176,6 +226,9 @@ fn size_of(c: Cfg) -> Size {
     match c.size {
         0 => Size::new(8.0),
         1 => Size::new(16.0),
+        // fractional and small: the interpreter sees ppem 7 (tinos switches hinting off below 8,
+        // so this is the scaled + disabled route), the scalers see 7.5
+        3 => Size::new(7.5),
         _ => Size::unscaled(),
     }
 }
@@ -199,6 +252,9 @@ fn options_of(opt: u8) -> HintingOptions {
         2 => HintingOptions { engine: Engine::Interpreter, target: smooth(SmoothMode::Lcd) },
         3 => HintingOptions { engine: Engine::Auto(None), target: smooth(SmoothMode::Normal) },
         4 => HintingOptions { engine: Engine::Auto(None), target: Target::Mono },
+        8 => HintingOptions { engine: Engine::Interpreter, target: Target::Smooth { mode: SmoothMode::Normal, symmetric_rendering: false, preserve_linear_metrics: false } },
+        9 => HintingOptions { engine: Engine::Interpreter, target: Target::Smooth { mode: SmoothMode::Normal, symmetric_rendering: true, preserve_linear_metrics: true } },
+        10 => HintingOptions { engine: Engine::Auto(None), target: smooth(SmoothMode::Light) },
         _ => HintingOptions { engine: Engine::AutoFallback, target: Target::default() },
     }
 }
@@ -209,7 +265,7 @@ static EXTRA_GLYPH_CAP: std::sync::atomic::AtomicU32 = std::sync::atomic::Atomic
 static EXTRA_ALL_SIZES: std::sync::atomic::AtomicBool = std::sync::atomic::AtomicBool::new(false);
 
 fn glyph_limit(f: &Loaded) -> u32 {
-    if f.extra {
+    if f.extra && !f.uncapped {
         f.n_glyphs.min(EXTRA_GLYPH_CAP.load(std::sync::atomic::Ordering::Relaxed))
     } else {
         f.n_glyphs
@@ -221,13 +277,49 @@ fn configs_of(fonts: &[Loaded], fi: usize, with_unhinted: bool) -> Vec<Cfg> {
     let mut v = vec![];
     let locs: &[u8] = if fonts[fi].axes > 0 { &[0, 1, 2] } else { &[0] };
     let all_sizes = !fonts[fi].extra || EXTRA_ALL_SIZES.load(std::sync::atomic::Ordering::Relaxed);
-    for size in 0..3u8 {
+    let mut opts: Vec<u8> = HINTED_OPTS.to_vec();
+    if with_unhinted {
+        opts.extend([OPT_UNHINTED, OPT_UNHINTED_HB]);
+    }
+    for size in 0..N_SIZES {
         if !all_sizes && size != 1 {
             continue;
         }
         for &loc in locs {
-            for opt in 0..(if with_unhinted { N_OPTS } else { N_HINTED_OPTS }) {
+            for &opt in &opts {
                 v.push(Cfg { font: fi as u8, size, loc, opt });
+            }
+        }
+    }
+    v
+}
+
+/// The reconfigure alphabet K of one font: the original product sizes {8, 16, unscaled} x locations x
+/// six options, plus (audit; fonts with fpgm or prep only) size 7.5 x {Interpreter/Mono,
+/// Interpreter/Smooth} and, in the thorough tier, size 16 x the two added interpreter options — every new size / target value meets every old configuration in both orders.
+fn k_configs_of(fonts: &[Loaded], fi: usize, with_target_flags: bool) -> Vec<Cfg> {
+    let mut v = vec![];
+    let locs: &[u8] = if fonts[fi].axes > 0 { &[0, 1, 2] } else { &[0] };
+    for size in 0..3u8 {
+        for &loc in locs {
+            for &opt in &K_BASE_OPTS {
+                v.push(Cfg { font: fi as u8, size, loc, opt });
+            }
+        }
+    }
+    // the added values act on TrueType interpreter state: fonts with a font or control-value program
+    let f = &fonts[fi];
+    let has_programs = f.is_glyf && (f.font.data_for_tag(font_types::Tag::new(b"fpgm")).is_some() || f.font.data_for_tag(font_types::Tag::new(b"prep")).is_some());
+    if !has_programs {
+        return v;
+    }
+    for &loc in locs {
+        for opt in [0u8, 1] {
+            v.push(Cfg { font: fi as u8, size: 3, loc, opt });
+        }
+        if with_target_flags {
+            for opt in [8u8, 9] {
+                v.push(Cfg { font: fi as u8, size: 1, loc, opt });
             }
         }
     }
@@ -284,6 +376,8 @@ impl OutlinePen for RecPen {
 
 enum How<'a> {
     Hinted(&'a HintingInstance),
+    /// `is_pedantic = true`: hinting errors fail the draw
+    HintedPedantic(&'a HintingInstance),
     /// hinted instance + HarfBuzz path style: documented to be rejected
     HintedHarfBuzz(&'a HintingInstance),
     Unhinted(Size, &'a [F2Dot14], PathStyle),
@@ -294,6 +388,7 @@ fn draw(glyph: &OutlineGlyph, how: &How, mem: Option<&mut [u8]>) -> Outcome {
         let mut pen = RecPen::default();
         let settings = match how {
             How::Hinted(inst) => DrawSettings::hinted(inst, false),
+            How::HintedPedantic(inst) => DrawSettings::hinted(inst, true),
             How::HintedHarfBuzz(inst) => DrawSettings::hinted(inst, false).with_path_style(PathStyle::HarfBuzz),
             How::Unhinted(size, coords, style) => DrawSettings::unhinted(*size, LocationRef::new(coords)).with_path_style(*style),
         }
@@ -356,7 +451,13 @@ fn well_formed(cmds: &[(u8, [u32; 6])]) -> Result<(), String> {
 fn make_instance(fonts: &[Loaded], c: Cfg) -> Result<HintingInstance, String> {
     let f = &fonts[c.font as usize];
     let coords = coords_of(f, c.loc);
-    match guard(|| HintingInstance::new(&f.outlines, size_of(c), LocationRef::new(&coords), options_of(c.opt))) {
+    make_instance_at(fonts, c, &coords)
+}
+
+/// like `make_instance`, with an explicit coordinate vector instead of `c.loc`
+fn make_instance_at(fonts: &[Loaded], c: Cfg, coords: &[F2Dot14]) -> Result<HintingInstance, String> {
+    let f = &fonts[c.font as usize];
+    match guard(|| HintingInstance::new(&f.outlines, size_of(c), LocationRef::new(coords), options_of(c.opt))) {
         Ok(Ok(i)) => Ok(i),
         Ok(Err(e)) => Err(format!("{e:?}")),
         Err(p) => Err(format!("panic: {} at {}", p.kind(), p.site())),
@@ -381,14 +482,25 @@ fn observe_sel(fonts: &[Loaded], c: Cfg, inst: &Result<HintingInstance, String>)
     let f = &fonts[c.font as usize];
     match inst {
         Err(e) => Err(e.clone()),
-        Ok(i) => Ok(f
-            .sel
-            .iter()
-            .map(|g| match f.outlines.get(*g) {
-                Some(gl) => draw(&gl, &How::Hinted(i), None),
-                None => Outcome::Err("no outline".into()),
-            })
-            .collect()),
+        Ok(i) => {
+            let mut v: Vec<Outcome> = f
+                .sel
+                .iter()
+                .map(|g| match f.outlines.get(*g) {
+                    Some(gl) => draw(&gl, &How::Hinted(i), None),
+                    None => Outcome::Err("no outline".into()),
+                })
+                .collect();
+            // what the instance says about itself (last entry; compared reused vs fresh like a draw)
+            v.push(Outcome::Err(format!(
+                "getters: size {:?} location {:?} target {:?} enabled {}",
+                i.size().ppem(),
+                i.location().coords().iter().map(|c| c.to_bits()).collect::<Vec<_>>(),
+                i.target(),
+                i.is_enabled()
+            )));
+            Ok(v)
+        }
     }
 }
 
@@ -397,7 +509,8 @@ fn first_diff(a: &Obs, b: &Obs) -> String {
         (Ok(x), Ok(y)) => {
             for (i, (p, q)) in x.iter().zip(y.iter()).enumerate() {
                 if p != q {
-                    return format!("selected glyph #{i}: reused {} vs fresh {}", p.brief(), q.brief());
+                    let all: Vec<usize> = x.iter().zip(y.iter()).enumerate().filter(|(_, (p, q))| p != q).map(|(i, _)| i).collect();
+                    return format!("{}: reused {} vs fresh {} (differing entries: {all:?} of {})", if i + 1 == x.len() { "instance getters".to_string() } else { format!("selected glyph #{i}") }, p.brief(), q.brief(), x.len());
                 }
             }
             "?".into()
@@ -436,7 +549,7 @@ fn merge(run: &Run, locals: Vec<Local>) {
         nt.extend(l.nontrivial);
     }
     run.observe_many(&all, &nt);
-    // per-phase distinct counts (phases in execution order: 3 pairs, [3 triples], 1, 2a, 2b, 3b)
+    // per-phase distinct counts (phases in execution order: 3 pairs, [3 triples], 1, 2a, 2b, 3b, 3c, 5)
     let k = MERGE_SEQ.fetch_add(1, std::sync::atomic::Ordering::Relaxed);
     run.count(&format!("phase{}_distinct", k), all.len() as u64);
     run.count(&format!("phase{}_distinct_nontrivial", k), nt.len() as u64);
@@ -447,7 +560,7 @@ fn main() {
 }
 
 fn body(run: &Run, replay: Option<&Value>) {
-    run.rule("a case is (font, glyph(s), configuration, perturbation) where the perturbation is a second draw, a caller buffer (alignment, fill), a zero-vector location, a reconfigure history, a draw-order history or a thread schedule; distinct = distinct (case, observed result) digests; non-trivial = the reference draw succeeded with a non-empty pen stream (parts 1-3) / the schedule let more than one thread pass the metrics read before the first publish (part 4 reports this histogram)");
+    run.rule("a case is (font, glyph(s), configuration, perturbation) where the perturbation is a second draw, a caller buffer (alignment, fill), a zero-vector location (of the axis count or another length), a pedantic flag, a reconfigure history, a draw-order history, a thread schedule, or an enumerated contour shape / scratch size of the shapes font; distinct = distinct (case, observed result) digests; non-trivial = the reference draw succeeded with a non-empty pen stream (parts 1-3) / the schedule let more than one thread pass the metrics read before the first publish (part 4 reports this histogram)");
     run.assume("oracle is differential: the perturbed draw must equal the unperturbed draw of the same glyph and configuration made through a fresh instance with library-allocated memory");
     run.assume("auxiliary free-running pass of part 4 (real OS threads, barrier per round, fresh shared Auto instance per round) is SAMPLING, not the deciding exploration: it exists to catch work moved between the hook sites or accesses finer than them, which the schedule search executes atomically; a mismatch it reports is a real failing execution, its silence proves nothing beyond the executions that ran");
     run.assume("interpreter and unhinted draws contain no interior mutability (DESIGN §1), so only the auto-hinter's lazy metrics are schedule-explored; shuttle threads yield exactly at the three hook sites");
@@ -495,21 +608,155 @@ fn body(run: &Run, replay: Option<&Value>) {
         timing.push(json!({"part": name, "wall_s": ((now - t) * 100.0).round() / 100.0}));
         t = now;
     };
-    part3_histories(run, fonts);
-    lap("3 histories", run);
-    part4_schedules(run, fonts);
-    lap("4 schedules", run);
-    part4b_free_running(run, fonts, None);
-    lap("4b free-running (sampling)", run);
-    part1_wellformed(run, &wide);
-    lap("1 well-formedness", run);
-    part2_buffers(run, &wide);
-    lap("2 buffers", run);
-    part3b_draw_order(run, &wide);
-    lap("3b draw order", run);
-    part3c_buffer_reuse_across_locations(run, &wide);
-    lap("3c buffer reuse across locations", run);
+    // development aid (cost measurements): C12_ONLY=3,4,... runs only the named parts
+    let only = std::env::var("C12_ONLY").ok();
+    let want = |p: &str| only.as_ref().map(|o| o.split(',').any(|x| x == p)).unwrap_or(true);
+    // Part 4 is dominated by a few long single-threaded schedule searches, so it runs beside the
+    // data-parallel parts 3, 1, 2, 3b, 3c, 5 (which never touch the schedule hook's thread-local state of
+    // a thread that is inside a search: a search makes no rayon calls). What is enumerated, and in
+    // which order within each part, does not depend on this.
+    let t_join = run.elapsed();
+    let (wall4, ()) = rayon::join(
+        || {
+            if want("4") {
+                part4_schedules(run, fonts);
+            }
+            run.elapsed() - t_join
+        },
+        || {
+            if want("3") {
+                part3_histories(run, fonts);
+                lap("3 histories", run);
+            }
+            if want("1") {
+                part1_wellformed(run, &wide);
+                lap("1 well-formedness", run);
+            }
+            if want("2") {
+                part2_buffers(run, &wide);
+                lap("2 buffers", run);
+            }
+            if want("3b") {
+                part3b_draw_order(run, &wide);
+                lap("3b draw order", run);
+            }
+            if want("3c") {
+                part3c_buffer_reuse_across_locations(run, &wide);
+                lap("3c buffer reuse across locations", run);
+            }
+            if want("5") {
+                part5_shapes(run, &wide);
+                lap("5 contour shapes and scratch sizes", run);
+            }
+        },
+    );
+    lap("(waiting for 4)", run);
+    if want("4b") {
+        part4b_free_running(run, fonts, None);
+        lap("4b free-running (sampling)", run);
+    }
+    timing.push(json!({"part": "4 schedules (beside 3, 1, 2, 3b, 3c, 5)", "wall_s": (wall4 * 100.0).round() / 100.0}));
     run.extra("wall_by_part", json!(timing));
+}
+
+// =============================================================================================
+// part 5 (audit): enumerated contour shapes, both path styles; scratch sizes at the allocator's bounds
+// =============================================================================================
+
+/// One glyph of the shapes font under one size: draws it unhinted in both path styles and checks
+///  * FreeType style, Ok: exactly one move per stored contour (every contour has >= 1 point);
+///  * HarfBuzz style, Ok: at most one move per contour, and exactly one for every contour that is not
+///    a lone off-curve point (the only shape that style documents as producing nothing);
+///  * both Ok, every contour starts on-curve, unscaled: the two styles emit the same commands (the
+///    styles are documented to differ only in how a contour that STARTS off-curve is entered);
+///  * (part 1 already checks well-formedness and repeatability, part 2 the caller buffers).
+/// Returns the violations as (identity, detail).
+fn shapes_case(f: &Loaded, info: &shapes::ShapeInfo, gid: u32, size: u8) -> (Vec<(String, String)>, Outcome, Outcome) {
+    let mut bad = vec![];
+    let c = Cfg { font: 0, size, loc: 0, opt: OPT_UNHINTED };
+    let Some(gl) = f.outlines.get(GlyphId::new(gid)) else {
+        return (bad, Outcome::Err("no outline".into()), Outcome::Err("no outline".into()));
+    };
+    let ft = draw(&gl, &How::Unhinted(size_of(c), &[], PathStyle::FreeType), None);
+    let hb = draw(&gl, &How::Unhinted(size_of(c), &[], PathStyle::HarfBuzz), None);
+    let n = info.contours.len();
+    let lone_off = info.contours.iter().filter(|k| k.len() == 1 && k[0] != shapes::ON).count();
+    let moves = |o: &Outcome| match o {
+        Outcome::Ok { cmds, .. } => Some(cmds.iter().filter(|c| c.0 == 0).count()),
+        _ => None,
+    };
+    if let Some(m) = moves(&ft) {
+        if m != n {
+            bad.push(("contour shapes: FreeType-style stream does not have one move per contour".to_string(), format!("{m} moves for {n} contours {:?}", info.contours)));
+        }
+    }
+    if let Some(m) = moves(&hb) {
+        if m > n || m + lone_off < n {
+            bad.push(("contour shapes: HarfBuzz-style stream does not have one move per contour".to_string(), format!("{m} moves for {n} contours ({lone_off} lone off-curve points) {:?}", info.contours)));
+        }
+    }
+    let on_start = info.contours.iter().all(|k| k[0] == shapes::ON);
+    if on_start && size == 2 {
+        if let (Outcome::Ok { cmds: a, .. }, Outcome::Ok { cmds: b, .. }) = (&ft, &hb) {
+            if a != b {
+                bad.push(("contour shapes: FreeType and HarfBuzz styles differ for contours that start on-curve".to_string(), format!("{:?}: {} vs {}", info.contours, ft.brief(), hb.brief())));
+            }
+        }
+        if ft.is_ok() != hb.is_ok() {
+            bad.push(("contour shapes: one path style fails where the other succeeds for contours that start on-curve".to_string(), format!("{:?}: {} vs {}", info.contours, ft.brief(), hb.brief())));
+        }
+    }
+    (bad, ft, hb)
+}
+
+fn part5_shapes(run: &Run, fonts: &[Loaded]) {
+    let Some(f) = fonts.iter().find(|f| f.name == shapes::NAME) else {
+        run.machinery_error("the contour-shapes font is missing");
+        return;
+    };
+    let infos = shapes::glyph_list();
+    if infos.len() as u32 != f.n_glyphs || !f.is_glyf {
+        run.machinery_error("the contour-shapes font does not have the constructed glyph count");
+        return;
+    }
+    run.bound("contour_shapes", json!({"point_kinds": ["on", "off-quad"], "single_contour_lengths": [1, 2, 3, 4, 5, 6], "two_contour_lengths": [1, 2, 3], "glyphs": infos.len(), "sizes": ["8", "16", "unscaled", "7.5"], "scratch_size_targets": shapes::BUCKETS.iter().flat_map(|b| [*b, *b + 1]).collect::<Vec<_>>()}));
+    let mut l = Local::new();
+    let mut both_ok = 0u64;
+    let mut errs = 0u64;
+    for (gid, info) in infos.iter().enumerate() {
+        for size in 0..N_SIZES {
+            let (bad, ft, hb) = shapes_case(f, info, gid as u32, size);
+            run.eval();
+            run.trans(2);
+            let nt = matches!(&ft, Outcome::Ok { cmds, .. } if !cmds.is_empty());
+            l.add(digest_of(&("p5", gid, size, &ft, &hb)), nt);
+            if ft.is_ok() && hb.is_ok() {
+                both_ok += 1;
+            } else {
+                errs += 1;
+            }
+            for (id, what) in bad {
+                run.violation(&id, &format!("{} gid {gid} size {}: {what}", f.name, SIZE_NAMES[size as usize]), json!({"part": "5", "gid": gid, "size": size}));
+            }
+        }
+    }
+    run.count("part5_shape_cases", infos.len() as u64 * N_SIZES as u64);
+    run.count("part5_cases_both_styles_ok", both_ok);
+    run.count("part5_cases_with_a_rejected_style", errs);
+    // coverage evidence (not an oracle): which allocator bounds the size family really hits
+    let hit: Vec<usize> = infos
+        .iter()
+        .enumerate()
+        .filter_map(|(gid, i)| {
+            let want = i.expect_size?;
+            let got = f.outlines.get(GlyphId::new(gid as u32))?.draw_memory_size(Hinting::None);
+            (got == want).then_some(want)
+        })
+        .collect();
+    run.count("part5_scratch_size_targets_hit_exactly", hit.len() as u64);
+    run.extra("part5_scratch_sizes_hit", json!(hit));
+    merge(run, vec![l]);
+    run.sample(json!({"part": "5 contour shapes", "example": {"gid": 57, "contours": infos[57].contours}}));
 }
 
 // =============================================================================================
@@ -551,6 +798,45 @@ fn part1_wellformed(run: &Run, fonts: &[Loaded]) {
                         &format!("{} gid {gid}: first {} second {}", f.name, a.brief(), b.brief()),
                         json!({"part": 1, "cfg": c.json(fonts), "gid": gid}),
                     );
+                }
+                // (audit) one move and one close per stored contour: the number of contours is counted
+                // from the raw glyf data (component tree summed). Checked where hinting cannot
+                // change the contour structure: unhinted FreeType style and the interpreter.
+                if f.is_glyf && (c.opt == OPT_UNHINTED || (!is_unhinted(c.opt) && !is_auto(c.opt) && c.opt != 5)) {
+                    if let (Outcome::Ok { cmds, .. }, Some(Some(want))) = (&a, f.raw_contours.get(gid as usize)) {
+                        let moves = cmds.iter().filter(|c| c.0 == 0).count();
+                        run.count("part1_contour_count_checks", 1);
+                        if moves != *want {
+                            run.violation(
+                                &format!("pen stream has {} contours than the glyph data ({})", if moves < *want { "fewer" } else { "more" }, OPT_NAMES[c.opt as usize].split('/').next().unwrap()),
+                                &format!("{} gid {gid} under {}: {moves} move_to for {want} stored contours", f.name, c.json(fonts)),
+                                json!({"part": 1, "cfg": c.json(fonts), "gid": gid}),
+                            );
+                        }
+                    }
+                }
+                // (audit) pedantic draws: repeatable and, when successful, well formed
+                if let (Some(Ok(i)), false) = (&inst, is_auto(c.opt)) {
+                    let pa = draw(&gl, &How::HintedPedantic(i), None);
+                    let pb = draw(&gl, &How::HintedPedantic(i), None);
+                    draws += 2;
+                    l.add(digest_of(&("p1p", c, gid, &pa)), matches!(&pa, Outcome::Ok { cmds, .. } if !cmds.is_empty()));
+                    if pa != pb {
+                        run.violation(
+                            &format!("OutlineGlyph::draw not repeatable ({}, {}, pedantic)", if f.is_glyf { "glyf" } else { "cff" }, OPT_NAMES[c.opt as usize]),
+                            &format!("{} gid {gid}: first {} second {}", f.name, pa.brief(), pb.brief()),
+                            json!({"part": 1, "cfg": c.json(fonts), "gid": gid, "pedantic": true}),
+                        );
+                    }
+                    if let (true, Outcome::Ok { cmds, .. }) = (f.is_glyf, &pa) {
+                        if let Err(w) = well_formed(cmds) {
+                            run.violation(
+                                &format!("ill-formed pen stream for a TrueType outline ({}, pedantic): {}", OPT_NAMES[c.opt as usize], w.split(" at command").next().unwrap_or("")),
+                                &format!("{} gid {gid} under {}: {w}", f.name, c.json(fonts)),
+                                json!({"part": 1, "cfg": c.json(fonts), "gid": gid, "pedantic": true}),
+                            );
+                        }
+                    }
                 }
                 if let Some(Ok(i)) = &inst {
                     // hinted drawing with the HarfBuzz path style is documented to be rejected
@@ -609,11 +895,14 @@ fn part2_buffers(run: &Run, fonts: &[Loaded]) {
             continue;
         }
         for c in configs_of(fonts, fi, true) {
-            if c.opt == 3 || c.opt == 4 {
+            if is_auto(c.opt) {
                 continue; // Auto ignores caller memory entirely (no buffer carved)
             }
             if c.loc == 1 {
                 continue; // the zero vector is compared separately below
+            }
+            if c.opt == 8 || c.opt == 9 {
+                continue; // differ from option 1 in target flags only, which the carving never sees
             }
             cfgs.push(c);
         }
@@ -635,8 +924,12 @@ fn part2_buffers(run: &Run, fonts: &[Loaded]) {
             let mut draws = 0u64;
             for gid in 0..glyph_limit(f) {
                 let Some(gl) = f.outlines.get(GlyphId::new(gid)) else { continue };
+              // (audit) hinted draws are made with is_pedantic false and true
+              for pedantic in [false, true] {
                 let how = match &inst {
+                    Some(Ok(i)) if pedantic => How::HintedPedantic(i),
                     Some(Ok(i)) => How::Hinted(i),
+                    _ if pedantic => continue,
                     _ => How::Unhinted(size_of(c), &coords, style_of(c.opt)),
                 };
                 let reference = draw(&gl, &how, None);
@@ -644,13 +937,18 @@ fn part2_buffers(run: &Run, fonts: &[Loaded]) {
                 let nt = matches!(&reference, Outcome::Ok { cmds, .. } if !cmds.is_empty());
                 for align in 0..8usize {
                     for fill in [0u8, 0xFF, 0x5A] {
+                        // pedantic: addresses ≡ 1 and 4 (mod 8), fills FF and 5A
+                        if pedantic && !((align == 1 || align == 4) && fill != 0) {
+                            continue;
+                        }
                         let got = with_aligned(size, align, fill, |m| draw(&gl, &how, Some(m)));
                         draws += 1;
-                        l.add(digest_of(&("p2", c, gid, align, fill, &got)), nt);
+                        l.add(digest_of(&("p2", c, gid, align, fill, pedantic, &got)), nt);
                         if got != reference {
                             let class = match (&reference, &got) {
                                 (Outcome::Ok { .. }, Outcome::Ok { .. }) => "different stream/metrics".to_string(),
                                 (Outcome::Ok { .. }, Outcome::Err(e)) => format!("fails with {}", e.split('(').next().unwrap_or("")),
+                                (Outcome::Err(e), Outcome::Ok { .. }) if e.starts_with("panic") => "library-allocated draw panics where caller memory succeeds".to_string(),
                                 (Outcome::Err(_), _) => "differs from failing reference".to_string(),
                             };
                             run.violation(
@@ -660,11 +958,12 @@ fn part2_buffers(run: &Run, fonts: &[Loaded]) {
                                     format!("draw with caller memory of draw_memory_size ({}): {class}", OPT_NAMES[c.opt as usize].split('/').next().unwrap())
                                 },
                                 &format!("{} gid {gid} {}: buffer of {size} bytes at address ≡ {align} (mod 8) filled {fill:02x}: {} vs library-allocated {}", f.name, c.json(fonts), got.brief(), reference.brief()),
-                                json!({"part": 2, "cfg": c.json(fonts), "gid": gid, "align": align, "fill": fill}),
+                                json!({"part": 2, "cfg": c.json(fonts), "gid": gid, "align": align, "fill": fill, "pedantic": pedantic}),
                             );
                         }
                     }
                 }
+              }
             }
             run.evals(draws);
             run.trans(draws);
@@ -692,36 +991,50 @@ fn part2_buffers(run: &Run, fonts: &[Loaded]) {
             let mut l = Local::new();
             let f = &fonts[cz.font as usize];
             let cn = Cfg { loc: 0, ..cz };
-            let zero = coords_of(f, 1);
-            let (iz, inn) = if is_unhinted(cz.opt) { (None, None) } else { (Some(make_instance(fonts, cz)), Some(make_instance(fonts, cn))) };
             let mut n = 0u64;
-            match (&iz, &inn) {
-                (Some(Err(a)), Some(Err(b))) if a == b => return l,
-                (Some(Err(_)), _) | (_, Some(Err(_))) => {
-                    run.violation(
-                        &format!("HintingInstance::new differs between None and all-zero location ({})", OPT_NAMES[cz.opt as usize]),
-                        &format!("{}: {}", f.name, cz.json(fonts)),
-                        json!({"part": "2z", "cfg": cz.json(fonts), "gid": 0}),
-                    );
-                    return l;
+            // (audit) an all-zero vector of the axis count, and also a shorter (1) and a longer
+            // (axes + 1) one: "all-zero location" does not depend on the length
+            let mut lens = vec![f.axes];
+            if cz.size == 1 {
+                // the other lengths at one size (the decision does not involve the size)
+                if f.axes > 1 {
+                    lens.push(1);
                 }
-                _ => {}
+                lens.push(f.axes + 1);
             }
-            for gid in 0..glyph_limit(f) {
-                let Some(gl) = f.outlines.get(GlyphId::new(gid)) else { continue };
-                let (a, b) = match (&iz, &inn) {
-                    (Some(Ok(z)), Some(Ok(nn))) => (draw(&gl, &How::Hinted(z), None), draw(&gl, &How::Hinted(nn), None)),
-                    _ => (draw(&gl, &How::Unhinted(size_of(cz), &zero, style_of(cz.opt)), None), draw(&gl, &How::Unhinted(size_of(cz), &[], style_of(cz.opt)), None)),
-                };
-                n += 1;
-                let nt = matches!(&b, Outcome::Ok { cmds, .. } if !cmds.is_empty());
-                l.add(digest_of(&("p2z", cz, gid, &a)), nt);
-                if a != b {
-                    run.violation(
-                        &format!("draw differs between None and all-zero location ({})", OPT_NAMES[cz.opt as usize]),
-                        &format!("{} gid {gid} {}: zero-vector {} vs none {}", f.name, cz.json(fonts), a.brief(), b.brief()),
-                        json!({"part": "2z", "cfg": cz.json(fonts), "gid": gid}),
-                    );
+            let inn = if is_unhinted(cz.opt) { None } else { Some(make_instance(fonts, cn)) };
+            for zlen in lens {
+                let zero = vec![F2Dot14::ZERO; zlen];
+                let other = if zlen == f.axes { "" } else { " of another length" };
+                let iz = if is_unhinted(cz.opt) { None } else { Some(make_instance_at(fonts, cz, &zero)) };
+                match (&iz, &inn) {
+                    (Some(Err(a)), Some(Err(b))) if a == b => continue,
+                    (Some(Err(_)), _) | (_, Some(Err(_))) => {
+                        run.violation(
+                            &format!("HintingInstance::new differs between None and all-zero location{other} ({})", OPT_NAMES[cz.opt as usize]),
+                            &format!("{}: {} zero vector of length {zlen}", f.name, cz.json(fonts)),
+                            json!({"part": "2z", "cfg": cz.json(fonts), "gid": 0, "zlen": zlen}),
+                        );
+                        continue;
+                    }
+                    _ => {}
+                }
+                for gid in 0..glyph_limit(f) {
+                    let Some(gl) = f.outlines.get(GlyphId::new(gid)) else { continue };
+                    let (a, b) = match (&iz, &inn) {
+                        (Some(Ok(z)), Some(Ok(nn))) => (draw(&gl, &How::Hinted(z), None), draw(&gl, &How::Hinted(nn), None)),
+                        _ => (draw(&gl, &How::Unhinted(size_of(cz), &zero, style_of(cz.opt)), None), draw(&gl, &How::Unhinted(size_of(cz), &[], style_of(cz.opt)), None)),
+                    };
+                    n += 1;
+                    let nt = matches!(&b, Outcome::Ok { cmds, .. } if !cmds.is_empty());
+                    l.add(digest_of(&("p2z", cz, gid, zlen, &a)), nt);
+                    if a != b {
+                        run.violation(
+                            &format!("draw differs between None and all-zero location{other} ({})", OPT_NAMES[cz.opt as usize]),
+                            &format!("{} gid {gid} {}: zero-vector (length {zlen}) {} vs none {}", f.name, cz.json(fonts), a.brief(), b.brief()),
+                            json!({"part": "2z", "cfg": cz.json(fonts), "gid": gid, "zlen": zlen}),
+                        );
+                    }
                 }
             }
             run.evals(n);
@@ -741,7 +1054,7 @@ fn part2_buffers(run: &Run, fonts: &[Loaded]) {
 fn part3_histories(run: &Run, fonts: &[Loaded]) {
     let mut k: Vec<Cfg> = vec![];
     for fi in 0..fonts.len() {
-        k.extend(configs_of(fonts, fi, false));
+        k.extend(k_configs_of(fonts, fi, run.tier == Tier::Thorough));
     }
     run.bound("K_size", json!(k.len()));
     // fresh references, one per configuration
@@ -881,7 +1194,7 @@ fn report_history(run: &Run, fonts: &[Loaded], h: &[Cfg], diff: &str, cloned: bo
 // =============================================================================================
 
 fn part3b_draw_order(run: &Run, fonts: &[Loaded]) {
-    let max_glyphs = run.tier.pick(24u32, 64u32);
+    let max_glyphs = run.tier.pick(40u32, 64u32);
     run.bound("draw_order_max_glyphs_per_font", json!(max_glyphs));
     let mut cfgs = vec![];
     for (fi, f) in fonts.iter().enumerate() {
@@ -982,7 +1295,7 @@ fn one_reuse_history(fonts: &[Loaded], c1: Cfg, c2: Cfg, ga: u32, buf: &mut [u8]
 }
 
 fn part3c_buffer_reuse_across_locations(run: &Run, fonts: &[Loaded]) {
-    let (na, nb) = run.tier.pick((12u32, 48u32), (32u32, 128u32));
+    let (na, nb) = run.tier.pick((12u32, 40u32), (32u32, 128u32));
     run.bound("buffer_reuse_across_locations", json!({"glyphs_a": na, "glyphs_b": nb, "options": ["Unhinted", "Unhinted-HarfBuzz", "Interpreter/Mono", "Interpreter/Smooth-Normal", "AutoFallback/default"], "sizes_x_locations": 9}));
     // tasks: (font, option, first configuration)
     let mut tasks: Vec<Cfg> = vec![];
@@ -1470,6 +1783,18 @@ fn replay_case(run: &Run, fonts: &[Loaded], case: &Value) {
                 );
             }
         }
+        "5" => {
+            let gid = case["gid"].as_u64().unwrap() as usize;
+            let size = case["size"].as_u64().unwrap() as u8;
+            let infos = shapes::glyph_list();
+            if let Some(f) = fonts.iter().find(|f| f.name == shapes::NAME) {
+                let (bad, ft, hb) = shapes_case(f, &infos[gid], gid as u32, size);
+                println!("FreeType style: {}\nHarfBuzz style: {}", ft.brief(), hb.brief());
+                for (id, what) in bad {
+                    run.violation(&id, &what, case.clone());
+                }
+            }
+        }
         "1h" => {
             let c = Cfg::from_raw(&case["cfg"]["raw"]);
             let gid = case["gid"].as_u64().unwrap_or(0) as u32;
@@ -1518,7 +1843,9 @@ fn replay_case(run: &Run, fonts: &[Loaded], case: &Value) {
             let f = &fonts[c.font as usize];
             let coords = coords_of(f, c.loc);
             let inst = if is_unhinted(c.opt) { None } else { Some(make_instance(fonts, c)) };
+            let pedantic = case["pedantic"].as_bool().unwrap_or(false);
             let how = match &inst {
+                Some(Ok(i)) if pedantic => How::HintedPedantic(i),
                 Some(Ok(i)) => How::Hinted(i),
                 Some(Err(e)) => {
                     println!("instance error {e}");
@@ -1537,6 +1864,13 @@ fn replay_case(run: &Run, fonts: &[Loaded], case: &Value) {
                             if let Err(w) = well_formed(cmds) {
                                 run.violation("replayed: ill-formed pen stream", &w, case.clone());
                             }
+                            let moves = cmds.iter().filter(|c| c.0 == 0).count();
+                            if let (Some(Some(want)), true) = (f.raw_contours.get(gid as usize), c.opt == OPT_UNHINTED || (!is_unhinted(c.opt) && !is_auto(c.opt) && c.opt != 5)) {
+                                println!("moves {moves}, stored contours {want}");
+                                if moves != *want {
+                                    run.violation("replayed: pen stream contour count differs from the glyph data", &format!("{moves} vs {want}"), case.clone());
+                                }
+                            }
                         }
                     }
                     draw(&gl, &how, None)
@@ -1547,11 +1881,24 @@ fn replay_case(run: &Run, fonts: &[Loaded], case: &Value) {
                     with_aligned(gl.draw_memory_size(hinting), align, fill, |m| draw(&gl, &how, Some(m)))
                 }
                 "2z" => {
+                    // reference above was drawn with the axis-count zero vector; redo both sides here
+                    let zlen = case["zlen"].as_u64().map(|z| z as usize).unwrap_or(f.axes);
+                    let zero = vec![F2Dot14::ZERO; zlen];
                     let cn = Cfg { loc: 0, ..c };
-                    match make_instance(fonts, cn) {
-                        Ok(i) if !is_unhinted(c.opt) => draw(&gl, &How::Hinted(&i), None),
-                        _ => draw(&gl, &How::Unhinted(size_of(c), &[], style_of(c.opt)), None),
+                    let (z, nn) = if is_unhinted(c.opt) {
+                        (draw(&gl, &How::Unhinted(size_of(c), &zero, style_of(c.opt)), None), draw(&gl, &How::Unhinted(size_of(c), &[], style_of(c.opt)), None))
+                    } else {
+                        match (make_instance_at(fonts, c, &zero), make_instance(fonts, cn)) {
+                            (Ok(a), Ok(b)) => (draw(&gl, &How::Hinted(&a), None), draw(&gl, &How::Hinted(&b), None)),
+                            (a, b) => (Outcome::Err(format!("{:?}", a.err())), Outcome::Err(format!("{:?}", b.err()))),
+                        }
+                    };
+                    println!("zero vector of length {zlen}: {}", z.brief());
+                    println!("none:                       {}", nn.brief());
+                    if z != nn {
+                        run.violation("replayed C12 part 2z case differs", &format!("{} vs {}", z.brief(), nn.brief()), case.clone());
                     }
+                    return;
                 }
                 _ => {
                     let before = case["before"].as_u64().unwrap_or(0) as u32;
